@@ -139,9 +139,35 @@ def cmdseq_write(seqs) -> bytes:
     return buf.getvalue()
 
 
+_SRC = [0]
+
+
+def _bin_source(data: bytes):
+    """Readers take any binary file object: mostly BytesIO, every sixth time a real file on disk."""
+    _SRC[0] += 1
+    if _SRC[0] % 6:
+        return io.BytesIO(data)
+    import tempfile
+    f = tempfile.TemporaryFile('w+b')
+    f.write(data)
+    f.seek(0)
+    return f
+
+
+def _text_source(text: str):
+    _SRC[0] += 1
+    if _SRC[0] % 6:
+        return text
+    import tempfile
+    f = tempfile.TemporaryFile('w+', encoding='utf8', errors='surrogatepass', newline='')
+    f.write(text)
+    f.seek(0)
+    return f
+
+
 def cmdseq_read(data: bytes):
     from srctools import cmdseq
-    buf = io.BytesIO(data)
+    buf = _bin_source(data)
     out = cmdseq.parse(buf)
     rest = buf.read()
     if rest:
@@ -582,7 +608,7 @@ def vmt_write(mat) -> str:
 
 def vmt_read(text: str):
     from srctools.vmt import Material
-    return Material.parse(text)
+    return Material.parse(_text_source(text))
 
 
 def _vmt_bare_special(text: str) -> bool:
@@ -647,7 +673,7 @@ def pcf_codec(encoding: str, fmt_ver: int) -> Tuple[Callable[[Any], bytes], Call
             dmx.get_uuid = real
 
     def read(data: bytes):
-        return list(Particle.parse(io.BytesIO(data)).values())
+        return list(Particle.parse(_bin_source(data)).values())
     return write, read
 
 
@@ -707,7 +733,7 @@ def smd_write(mesh) -> bytes:
 
 def smd_read(data: bytes):
     from srctools.smd import Mesh
-    return Mesh.parse_smd(io.BytesIO(data))
+    return Mesh.parse_smd(_bin_source(data))
 
 
 def classify_smd(f: Failure) -> str:
